@@ -26,8 +26,13 @@ Definition mk_libm (cbrt log2 : Z) : libm := {| l_cbrt := f64_of_bits cbrt; l_lo
 (* debug profile: the edge min + from_usize(i) * w is computed in the element type with overflow checks,
    for every i in 0..=n_bins (the counting loop and the builder evaluate the same expressions); the grid
    itself is the unbounded one whenever none of these leaves the type *)
-Definition placement_ok (t : ity) (mn w : Z) (nb : nat) : bool :=
-  forallb (fun i => in_range t (nz i * w) && in_range t (mn + nz i * w)) (seq 0 (S nb)).
+Fixpoint placement_ok_from (t : ity) (mn w iz : Z) (k : nat) : bool :=
+  match k with
+  | O => true
+  | S k' => in_range t (iz * w) && in_range t (mn + iz * w) && placement_ok_from t mn w (iz + 1) k'
+  end.
+(* i = 0 .. nb, with the index carried as a binary integer (a unary index would make this quadratic) *)
+Definition placement_ok (t : ity) (mn w : Z) (nb : nat) : bool := placement_ok_from t mn w 0 (S nb).
 
 Definition m_full_int (sg : bool) (bits : Z) (k : Z) (data : list Z) (cbrt log2 : Z) : list Z :=
   let t := {| signed := sg; bits := bits |} in
